@@ -37,6 +37,23 @@ theorem mac_covers_whole_packet_generated :
     PV.Generated.C03.read_mac_input_is_seq_len_and_whole_packet = true := by
   decide
 
+/-- **A rejection is final.** In the model a failed `read_message` leaves no receiver state behind (`Res.err`), so
+`recvAll` delivers nothing after the first failure: the delivered list is exactly what was delivered before it. -/
+theorem failure_is_absorbing {p : Prims} (r : Receiver p) (d rnd : Bytes) (ops : List (Op p)) (buf : Bytes) (e : Err)
+    (h : runBuf (readMessage r) buf = .err e) :
+    (recvAll r (.msg d rnd :: ops) buf).msgs = [] ∧ (recvAll r (.msg d rnd :: ops) buf).stop = some e := by
+  simp only [recvAll, h, and_self]
+
+/-- … and the real receiver has no state in which it could resynchronise behind a rejected packet (AST of
+`class Packetizer`, regenerated on every run): the inbound sequence counter is written by `__init__`, `reset_seqno_in`
+and ONE assignment in `read_message`, and that assignment comes after both "Mismatched MAC" checks and the AEAD
+`decrypt` in statement order — a packet that fails authentication does not consume its sequence number, so every packet
+behind it fails too (the oracle keeps reading after the first rejection and checks exactly that). -/
+theorem seqno_stepped_only_after_authentication_generated :
+    PV.Generated.C03.read_seqno_in_stepped_after_authentication = true ∧
+    PV.Generated.C03.seqno_in_writers_are_init_reset_read = true := by
+  decide
+
 /-- **encrypt-then-MAC.** Whatever the bytes `buf` are: if `read_message` delivers, then `buf` starts with
 `hdr ‖ more ‖ tag` where `hdr ‖ more` is the length field and the complete ciphertext body it announces, `tag` has
 the full MAC length and *equals* `mac(key, seq_in ‖ hdr ‖ more)[:macLen]`; the message carries `seq_in`. -/
